@@ -624,6 +624,68 @@ func longIdent(r *rng) string {
 	return string(b)
 }
 
+// what a constant finally denotes, following const -> const and const -> enum value chains through includes:
+// kind 1 integer literal, 3 string literal, 4 value of enum (name, declaring file), 0 anything else
+func (g *igen) constKind(fi int, v iConst, fuel int) (kind int, enumName string, enumFile int) {
+	if fuel == 0 {
+		return 0, "", 0
+	}
+	switch v.Tag {
+	case 1:
+		return 1, "", 0
+	case 3:
+		return 3, "", 0
+	case 4:
+		f := g.prog[fi]
+		parts := strings.Split(v.S, ".")
+		tf, tfi := f, fi
+		if len(parts) >= 2 {
+			for _, inc := range f.Includes {
+				if inc.Alias == parts[0] {
+					tf, tfi = g.prog[inc.Idx], inc.Idx
+					parts = parts[1:]
+					break
+				}
+			}
+		}
+		if len(parts) == 1 {
+			for _, c := range tf.Consts {
+				if c.N == parts[0] {
+					return g.constKind(tfi, c.V, fuel-1)
+				}
+			}
+		}
+		if len(parts) == 2 {
+			for _, e := range tf.Enums {
+				if e.Name == parts[0] {
+					return 4, e.Name, tfi
+				}
+			}
+		}
+	}
+	return 0, "", 0
+}
+
+// references (as written in file fi) to the constants of fi and of its includes that denote the wanted kind
+func (g *igen) constRefs(fi int, kind int, enumName string, enumFile int) []string {
+	var out []string
+	add := func(prefix string, ti int) {
+		for _, c := range g.prog[ti].Consts {
+			k, en, ef := g.constKind(ti, c.V, 6)
+			if k == kind && (kind != 4 || (en == enumName && ef == enumFile)) {
+				out = append(out, prefix+c.N)
+			}
+		}
+	}
+	add("", fi)
+	for _, inc := range g.prog[fi].Includes {
+		if !(g.hasB && inc.Idx == g.baseIx) {
+			add(inc.Alias+".", inc.Idx)
+		}
+	}
+	return out
+}
+
 var doubleTable = []struct {
 	T string
 	B uint64
@@ -640,12 +702,8 @@ func (g *igen) genDefault(fi int, t *iTexpr) iConst {
 		}
 		return iConst{Tag: 4, S: []string{"true", "false"}[r.intn(2)]}
 	case 1:
-		if r.chance(25) {
-			for _, c := range f.Consts {
-				if c.V.Tag == 1 {
-					return iConst{Tag: 4, S: c.N}
-				}
-			}
+		if c := g.constRefs(fi, 1, "", 0); len(c) > 0 && r.chance(40) {
+			return iConst{Tag: 4, S: c[r.intn(len(c))]}
 		}
 		return iConst{Tag: 1, I: int64(r.intn(200)) - 100}
 	case 2:
@@ -655,15 +713,14 @@ func (g *igen) genDefault(fi int, t *iTexpr) iConst {
 		d := doubleTable[r.intn(len(doubleTable))]
 		return iConst{Tag: 2, Bits: d.B, Text: d.T}
 	case 3:
-		if r.chance(25) {
-			for _, c := range f.Consts {
-				if c.V.Tag == 3 {
-					return iConst{Tag: 4, S: c.N}
-				}
-			}
+		if c := g.constRefs(fi, 3, "", 0); len(c) > 0 && r.chance(40) {
+			return iConst{Tag: 4, S: c[r.intn(len(c))]}
 		}
 		return iConst{Tag: 3, S: []string{"", "x", "hello world", "a-b_c"}[r.intn(4)]}
 	case 4:
+		if c := g.constRefs(fi, 4, enumName, efi); len(c) > 0 && r.chance(35) {
+			return iConst{Tag: 4, S: c[r.intn(len(c))]}
+		}
 		var e *iEnum
 		for _, x := range g.prog[efi].Enums {
 			if x.Name == enumName {
@@ -837,6 +894,77 @@ func (g *igen) genFile(path string, includes []int, nsvc int, main bool) *iFile 
 			}{g.fresh("KS"), &iTexpr{Tag: 0, Base: 7}, iConst{Tag: 3, S: "c" + g.fresh("")}})
 		}
 	}
+	// constants whose value is another constant or an enum value, within the file and across includes; constants of the
+	// including file named like a constant of an included file
+	type cdecl = struct {
+		N string
+		T *iTexpr
+		V iConst
+	}
+	hasConst := func(n string) bool {
+		for _, c := range f.Consts {
+			if c.N == n {
+				return true
+			}
+		}
+		return false
+	}
+	for i, n := 0, r.intn(4); i < n; i++ {
+		switch r.intn(5) {
+		case 0: // const -> const of the same file
+			if len(f.Consts) > 0 {
+				c := f.Consts[r.intn(len(f.Consts))]
+				f.Consts = append(f.Consts, cdecl{g.fresh("KC"), c.T, iConst{Tag: 4, S: c.N}})
+			}
+		case 1: // const -> const of an included file
+			for _, inc := range f.Includes {
+				d := g.prog[inc.Idx]
+				if len(d.Consts) > 0 && !(g.hasB && inc.Idx == g.baseIx) {
+					c := d.Consts[r.intn(len(d.Consts))]
+					t := c.T
+					if t.Tag == 4 && !strings.Contains(t.Name, ".") {
+						t = &iTexpr{Tag: 4, Name: inc.Alias + "." + t.Name}
+					} else if t.Tag == 4 {
+						continue // a type of a file two includes away cannot be named here
+					}
+					f.Consts = append(f.Consts, cdecl{g.fresh("KQ"), t, iConst{Tag: 4, S: inc.Alias + "." + c.N}})
+					break
+				}
+			}
+		case 2: // const -> enum value of the same file
+			if len(f.Enums) > 0 {
+				e := f.Enums[r.intn(len(f.Enums))]
+				f.Consts = append(f.Consts, cdecl{g.fresh("KE"), &iTexpr{Tag: 4, Name: e.Name}, iConst{Tag: 4, S: e.Name + "." + e.Vals[r.intn(len(e.Vals))].N}})
+			}
+		case 3: // const -> enum value of an included file
+			for _, inc := range f.Includes {
+				d := g.prog[inc.Idx]
+				if len(d.Enums) > 0 {
+					e := d.Enums[r.intn(len(d.Enums))]
+					f.Consts = append(f.Consts, cdecl{g.fresh("KF"), &iTexpr{Tag: 4, Name: inc.Alias + "." + e.Name},
+						iConst{Tag: 4, S: inc.Alias + "." + e.Name + "." + e.Vals[r.intn(len(e.Vals))].N}})
+					break
+				}
+			}
+		default: // same name as a literal constant of an included file, another value
+			for _, inc := range f.Includes {
+				d := g.prog[inc.Idx]
+				if len(d.Consts) == 0 {
+					continue
+				}
+				c := d.Consts[r.intn(len(d.Consts))]
+				if hasConst(c.N) || c.T.Tag != 0 {
+					continue
+				}
+				if c.T.Base == 7 {
+					f.Consts = append(f.Consts, cdecl{c.N, c.T, iConst{Tag: 3, S: "shadow" + g.fresh("")}})
+				} else {
+					f.Consts = append(f.Consts, cdecl{c.N, c.T, iConst{Tag: 1, I: int64(5000 + r.intn(1000))}})
+				}
+				break
+			}
+		}
+	}
 	// struct names first (so that fields may refer to later structs: self / mutual recursion)
 	ns := 1 + r.intn(4)
 	for i := 0; i < ns; i++ {
@@ -865,7 +993,11 @@ func (g *igen) genFile(path string, includes []int, nsvc int, main bool) *iFile 
 	// services
 	for i := 0; i < nsvc; i++ {
 		sv := &iSvc{Name: g.fresh("Svc")}
-		for j, m := 0, 1+r.intn(3); j < m; j++ {
+		nfn := 1 + r.intn(3)
+		if r.chance(12) {
+			nfn = 0 // a service with an empty body (it may still inherit)
+		}
+		for j, m := 0, nfn; j < m; j++ {
 			fn := &iFunc{Name: g.fresh("M")}
 			switch x := r.intn(10); {
 			case x < 2:
@@ -974,8 +1106,14 @@ func genProgram(r *rng) (*igen, iOpts) {
 	g.prog[0] = mainF
 	// structs of main were generated while main sat at the end of the list: references are by name, nothing to fix.
 	// root-only request / response structs (thrift base fields, api.body)
-	if r.chance(50) {
-		sv := mainF.Svcs[r.intn(len(mainF.Svcs))]
+	var withFuncs []*iSvc
+	for _, sv := range mainF.Svcs {
+		if len(sv.Funcs) > 0 {
+			withFuncs = append(withFuncs, sv)
+		}
+	}
+	if len(withFuncs) > 0 && r.chance(50) {
+		sv := withFuncs[r.intn(len(withFuncs))]
 		fn := sv.Funcs[r.intn(len(sv.Funcs))]
 		rq := &iStruct{Name: g.fresh("RootReq")}
 		rq.Fields = g.genFields(0, 1+r.intn(4), 0, true, r.chance(6))
@@ -1053,6 +1191,9 @@ func (g *igen) eachTexpr(f *iFile, fn func(t *iTexpr)) {
 	}
 	for i := range f.Typedefs {
 		walk(f.Typedefs[i].T)
+	}
+	for i := range f.Consts {
+		walk(f.Consts[i].T)
 	}
 	for _, s := range f.Structs {
 		for _, fd := range s.Fields {
@@ -1259,7 +1400,7 @@ func (g *igen) addChain() {
 		f.Structs = []*iStruct{st}
 		for _, sn := range svcNames {
 			sv := &iSvc{Name: sn}
-			for j, m := 0, 1+r.intn(2); j < m; j++ {
+			for j, m := 0, r.intn(3); j < m; j++ { // possibly an empty body, at any position of the chain
 				sv.Funcs = append(sv.Funcs, &iFunc{Name: g.fresh("CM"), Ret: &iTexpr{Tag: 4, Name: st.Name}, Args: []*iField{{ID: 1, Name: "req", T: &iTexpr{Tag: 4, Name: st.Name}}}})
 			}
 			f.Svcs = append(f.Svcs, sv)
